@@ -212,6 +212,7 @@ const (
 	ppHB       = 2
 	ppHBAck    = 3
 	ppGoAway   = 4
+	ppOneway   = 5
 )
 
 func ppFrameBytes(typ byte, id uint64, tok uint32) []byte {
